@@ -289,19 +289,21 @@ func (s *stream) IsOpen() bool {
 }
 
 func (s *stream) Rebalance() {
-	if s.balancing && s.rebalanceTimer != nil {
-		// Is rebalance timer triggered already
-		if s.rebalanceTimer.Stop() {
-			s.rebalanceTimer.Reset(s.config.Dcp.Group.Membership.RebalanceDelay)
-			logger.Log.Info("latest rebalance time is resetted")
-		} else {
-			s.rebalanceTimer = time.AfterFunc(s.config.Dcp.Group.Membership.RebalanceDelay, s.Rebalance)
-			logger.Log.Info("latest rebalance time is reassigned")
+	if !s.rebalanceLock.TryLock() {
+		// a rebalance is in progress: it will pick up the latest membership when it reopens
+		if s.rebalanceTimer != nil {
+			// Is rebalance timer triggered already
+			if s.rebalanceTimer.Stop() {
+				s.rebalanceTimer.Reset(s.config.Dcp.Group.Membership.RebalanceDelay)
+				logger.Log.Info("latest rebalance time is resetted")
+			} else {
+				s.rebalanceTimer = time.AfterFunc(s.config.Dcp.Group.Membership.RebalanceDelay, s.Rebalance)
+				logger.Log.Info("latest rebalance time is reassigned")
+			}
 		}
 		return
 	}
 	logger.Log.Info("rebalance starting")
-	s.rebalanceLock.Lock()
 
 	s.eventHandler.BeforeRebalanceStart()
 
